@@ -219,7 +219,8 @@ def run_shard(ctx):
             src, text = sources.any_script(rng)      # every other generator of the framework as a source of scripts
             kinds = None
         ctx.obs["source:" + src] += 1
-        for ctor, gbt in flagsets:
+        fs_j = flagsets if ctx.tier == "thorough" else [[({}, False)], [({"normalize_names": True}, False)], [({}, True)]][j % 3]
+        for ctor, gbt in fs_j:
             check_case(ctx, {"gen": "generated", "source": src, "ddl": text, "ctor": ctor, "group_by_type": gbt, "kinds": kinds})
         if j == 0:
             ctx.sample({"ddl": text[:800], "modes": MODES})
